@@ -44,6 +44,8 @@ SLICES = {
     "headings": ({"root": {"h1", "h2", "h3", "h4", "para"}}, 5, 6),
     "tables": ({"root": {"tab10", "tab21", "tab22", "tab31", "para", "blockquote", "bullet_list", "h1"}, "blockquote": {"tab21", "para"},
                 "bullet_list": {"list_item"}, "list_item": {"tab22", "para"}}, 3, 4),
+    "images": ({"root": {"ipara"}, "ipara": {"text", "img", "code_inline"}, "img": {"text", "em", "code_inline", "img", "hardbreak", "link"},
+                "em": {"text", "code_inline"}, "link": {"text"}}, 5, 6, 4),
     "misc": ({"root": {"ipara", "dl", "para"}, "ipara": {"text", "s", "math_inline", "html_inline", "code_inline"}, "s": {"text", "em"}, "em": {"text"},
               "dl": {"dt", "dd"}, "dt": {"text", "em"}, "dd": {"para", "bullet_list"}, "bullet_list": {"list_item"}, "list_item": {"para"}}, 5, 6),
 }
@@ -78,9 +80,6 @@ def concretize(ev):
                     out.append("\n")
                 elif k == "hardbreak":
                     out.append("\\\n")
-                elif k == "image":
-                    src, alt = e["a"].split("|", 1)
-                    out.append(f"![{alt}]({src})")
                 elif k == "html_inline":
                     out.append(e["t"])
                 elif k == "math_inline":
@@ -96,6 +95,8 @@ def concretize(ev):
                     out.append("**" + inner + "**")
                 elif k == "link":
                     out.append("[" + inner + "](" + e["a"] + ")")
+                elif k == "image":
+                    out.append("![" + inner + "](" + e["a"] + ")")
                 elif k == "s":
                     out.append("~~" + inner + "~~")
                 elif k == "inline":
@@ -263,7 +264,7 @@ def gen_doc(rnd, depth=0):
             elif r < 0.82:
                 out.append("`" + w + "`")
             elif r < 0.87:
-                out.append("![" + rnd.choice([w, "a `c` b", "e\\*s", "x &amp; y", "*em* t"]) + "](i.png)")
+                out.append("![" + rnd.choice([w, "a `c` b", "e\\*s", "x &amp; y", "*em* t", "o ![i **s**](y.png) t", "![*e* `c`](z.png)", "[l *k*](https://e.x/q)"]) + "](i.png)")
             elif r < 0.92:
                 out.append("~~" + w + "~~")
             elif r < 0.96:
@@ -372,23 +373,29 @@ def run_render(ctx, focus):
     rnd = random.Random(ctx.seed + 2)
     # ---- T + export ---------------------------------------------------------------------------
     recs = []
-    for name, (grammar, nq, nt) in SLICES.items():
+    for name, sl in SLICES.items():
+        grammar, nq, nt = sl[:3]
+        depth = sl[3] if len(sl) > 3 else 3
         n = nq if quick else nt
-        consts = {"Grammar": "<-GrammarV", "MaxItems": n, "MaxDepth": 3, "DevHrAnywhere": False}
+        consts = {"Grammar": "<-GrammarV", "MaxItems": n, "MaxDepth": depth, "DevHrAnywhere": False, "DevAltTextOnly": False}
         r = tlc.run("Render", tlc.cfg(ctx, f"r_{name}.cfg", consts, invariants=INVS + ["Emit"]), wd=ctx.wd, timeout=3000, defs=gdefs(grammar), heap="10g")
         tlc.expect_holds(r, f"Render[{name}] M |= S")
-        ctx.add_tlc(f"Render_{name}", r, f"items <= {n}, depth <= 3")
+        ctx.add_tlc(f"Render_{name}", r, f"items <= {n}, depth <= {depth}")
         recs += r.records
-    rc = tlc.run("Render", tlc.cfg(ctx, "r_cov.cfg", {"Grammar": "<-GrammarV", "MaxItems": 2, "MaxDepth": 2, "DevHrAnywhere": False}, invariants=INVS),
+    rc = tlc.run("Render", tlc.cfg(ctx, "r_cov.cfg", {"Grammar": "<-GrammarV", "MaxItems": 2, "MaxDepth": 2, "DevHrAnywhere": False, "DevAltTextOnly": False}, invariants=INVS),
                  wd=ctx.wd, coverage=True, defs=gdefs(SLICES["blocks"][0]))
     for act in ("GenOpen", "GenLeaf", "GenClose", "GenDone", "Step", "Finish"):
         if rc.coverage.get(act, (0, 0))[0] == 0 and rc.coverage.get("Next", (0, 0))[0] == 0:
             raise tlc.MachineryFailure(f"Render: action {act} never taken (vacuous)")
     ctx.add_tlc("Render_cov", rc)
-    rd = tlc.run("Render", tlc.cfg(ctx, "r_dev.cfg", {"Grammar": "<-GrammarV", "MaxItems": 2, "MaxDepth": 2, "DevHrAnywhere": True},
+    rd = tlc.run("Render", tlc.cfg(ctx, "r_dev.cfg", {"Grammar": "<-GrammarV", "MaxItems": 2, "MaxDepth": 2, "DevHrAnywhere": True, "DevAltTextOnly": False},
                                    invariants=["TransitionPlacement"]), wd=ctx.wd, defs=gdefs(SLICES["blocks"][0]))
     tlc.expect_violation(rd, "TransitionPlacement", "Render Dev_HrAnywhere")
     ctx.add_tlc("Render_dev_hranywhere", rd, "expected counterexample found (transition under block_quote)")
+    ra = tlc.run("Render", tlc.cfg(ctx, "r_dev_alt.cfg", {"Grammar": "<-GrammarV", "MaxItems": 3, "MaxDepth": 2, "DevHrAnywhere": False, "DevAltTextOnly": True},
+                                   invariants=["LeavesFaithful"]), wd=ctx.wd, defs=gdefs(SLICES["images"][0]))
+    tlc.expect_violation(ra, "LeavesFaithful", "Render Dev_AltTextOnly")
+    ctx.add_tlc("Render_dev_alttextonly", ra, "expected counterexample found (inline code lost from an image's alt text)")
     return recs
 
 
@@ -464,7 +471,7 @@ def trace_leg(ctx, focus, extra_docs=()):
         traces.append(o)
     tf = ctx.wd / "r_traces.ndjson"
     tlc.write_ndjson(tf, traces)
-    consts = {"Grammar": "<-GrammarV", "MaxItems": 0, "MaxDepth": 0, "DevHrAnywhere": False}
+    consts = {"Grammar": "<-GrammarV", "MaxItems": 0, "MaxDepth": 0, "DevHrAnywhere": False, "DevAltTextOnly": False}
     rv = tlc.run("RenderTrace", tlc.cfg(ctx, "r_trace.cfg", consts, spec="TraceSpec", invariants=["Verdict", "TreeConsistent", "SectionPlacement", "TransitionPlacement", "TitleOnlyInSection"]),
                  wd=ctx.wd, env={"TRACE_FILE": str(tf)}, timeout=3000, defs=gdefs(SLICES["blocks"][0]), heap="10g")
     tlc.expect_holds(rv, "RenderTrace invariants")
